@@ -157,7 +157,11 @@ def decide(mod, prop, agg, replay_dir: Path) -> int:
         if n == 0:
             reasons.append(f"required function never executed: {k}")
     for k, n in agg["reach_lines"].items():
-        if n == 0:
+        if n == 0 and k in agg["reach_unresolved"]:
+            # the source line the branch monitor was anchored on no longer exists (the code
+            # was edited): the branch counter is unavailable, the oracle still decides
+            print(f"# WARN {prop}: reach anchor not found in the current source: {k}")
+        elif n == 0:
             reasons.append(f"required line never executed: {k}")
     for k, minimum in getattr(mod, "REQUIRED", {}).items():
         if agg["counters"].get(k, 0) < minimum:
@@ -194,6 +198,7 @@ def evidence(mod, prop, tier, seed, agg) -> dict:
         "residuals": agg["measures"],
         "reach_functions": agg["reach_functions"],
         "reach_lines": agg["reach_lines"],
+        "reach_anchors_not_found_in_source": agg["reach_unresolved"],
         "known_finding_hits": agg.get("known_finding_hits", {}),
         "new_violation_cases": agg.get("new_violation_cases", 0),
         "max_case_wall_s": agg["case_wall_max"],
